@@ -15,24 +15,25 @@ from props import e2e
 
 ID = 'C02'
 HARNESS = 'solve'
-COQ_IMPORTS = 'From VRP Require Import Base.Tac Model.Core Spec.Valid Spec.ValidX Model.Homes.'
-MODEL_TARGETS = ['theories/Spec/Valid.vo', 'theories/Spec/ValidX.vo', 'theories/Model/Homes.vo']
+COQ_IMPORTS = 'From VRP Require Model.Routing. From VRP Require Import Base.Tac Model.Core Spec.Valid Spec.ValidX Spec.ValidY Model.Homes.'
+MODEL_TARGETS = ['theories/Spec/Valid.vo', 'theories/Spec/ValidX.vo', 'theories/Spec/ValidY.vo', 'theories/Model/Homes.vo']
 MODEL_NEEDS_IMPL = True
 SHARD = 24
 SIZES = {'quick': 900, 'thorough': 6000, 'search': 1500}
 TRACE = 24
 _R4 = "; round-four features, each in about 1/3 of the problems and from its own forked random stream: 2-4 extra jobs with REPLACEMENT tasks (also mixed with pickups / services / shipments), REQUIRED breaks (exact time or offset interval, 1-2 per shift, on shifts without optional breaks and reloads; documents show them as break activities inside a stop or as stops without location), VICINITY CLUSTERING (plan.clustering with the vehicles' profile, visiting continue / return, serving original with parking 0-10, thresholds taken from the matrix, 3-5 extra single-task jobs at a pair of near locations; not together with breaks, reloads, errorCodes or general routing data)"
+_R5 = '; round-five features, each from its own forked random stream: RECHARGE STATIONS in about 1/3 of the problems without required breaks / clustering (recharges.maxDistance = the length of a random 2-4 leg walk from the shift start, so that tours exactly at the limit occur; 1-3 stations per shift with location, duration 0-15, sometimes a time window / tag; combined with reloads, optional breaks, capacity dimensions, errorCodes, general routing data), SHARED RELOAD RESOURCES in about 2/3 of the problems with reloads (fleet.resources with 1-2 small capacity vectors, resourceId on about 3/4 of the reloads of all shifts)'
 RULE = ('cases: generated pragmatic problems (3-10 jobs: deliveries, pickups, services, shipments, 2-pickup and 2-delivery '
         'multi jobs; 1-2 places / windows, tags; 1-3 vehicle types x 1-2 ids x 1-2 shifts, open and closed ends; capacity, '
         'skills, limits; metric and non-metric integer matrices) x 3 configurations each (max_generations 0-20, thread pools '
-        'none/(1,1)/(2,2), outer threads 1-2, quota firing after 0-89 polls or never)' + _R4 + '. non-trivial = distinct (problem, '
+        'none/(1,1)/(2,2), outer threads 1-2, quota firing after 0-89 polls or never)' + _R4 + _R5 + '. non-trivial = distinct (problem, '
         'returned document) where the document has a tour and either an unassigned job, two tours or an assigned multi job.')
 TRUSTED = ['rendering of the JSON documents into the reduced Coq types (tools/props/e2e.py g_problem / g_solution); cross-checked '
            'on every case by the independent Python twin of the checker working on the raw JSON',
            'the harness reports the core Solution (routes, unassigned) through public fields of vrp_core::models::Solution',
            'bookkeeping dumps come from the verification hook in insertions.rs (observer after apply_insertion_success, '
            'thread-local: only insertions executed on the solving thread are seen)']
-ASSUMPTIONS = ['problem fragment without recharges; required breaks are in (ValidX.accounted4: the break activities and stops without '
+ASSUMPTIONS = ['recharge stations are in (ValidY.accounted5: the recharge stops of a tour are DISTINCT stations of its vehicle shift; they are masked for every other clause); required breaks are in (ValidX.accounted4: the break activities and stops without '
                'location of a tour whose shift defines required breaks are DISTINCT required breaks of that shift - duration, start '
                'inside [earliest, latest]; Valid.accounted_b judges the document without them), replacement tasks and mixed jobs are in '
                '(AJobMixedOrder), vicinity clustering is in (clustered activities are ordinary activities with their own location for the '
@@ -70,7 +71,7 @@ def model_term(c, impl):
     # round-four rules (ARequiredBreak, AJobMixedOrder); the tours handed to `compare` are the stripped ones as well
     return ('(let X := ' + e2e.g_xproblem(c, ids) + ' in let XS := ' + e2e.g_xsolution(c, s, ids) + ' in let P := %s in let S := %s in (precond_viol P ++ %s, '
             'map (fun t => (to_vehicle t, Z.of_nat (to_shift t), map fa_job (job_acts t))) (sl_tours (strip_sol X S)), '
-            'map fst (sl_unassigned (strip_sol X S)), %s))' % (P, S, '(accounted4 X XS P S)', tr))
+            'map fst (sl_unassigned (strip_sol X S)), %s))' % (P, S, e2e.term_A(c, s, ids, X='X', XS='XS'), tr))
 
 
 def compare(c, impl, model):
@@ -99,7 +100,7 @@ def compare(c, impl, model):
     # reload markers: as many reload activities in the document tour as marker jobs in the core route
     # (REQUIRED breaks are reserved times, not marker jobs: only the breaks of shifts without required breaks count)
     doc_reloads = [sum(1 for st in t['stops'] for a in st['activities']
-                       if a.get('type') == 'reload' or (a.get('type') == 'break' and not e2e.tour_required_breaks(c, t)))
+                       if a.get('type') in ('reload', 'recharge') or (a.get('type') == 'break' and not e2e.tour_required_breaks(c, t)))
                    for t in s['tours']]
     core_reloads = [sum(1 for j in r['jobs'] if e2e.is_conditional_id(c, j)) for r in core.get('routes', [])]
     if doc_reloads != core_reloads:
@@ -120,7 +121,8 @@ CLASS = {'AJobLost': 'job-lost', 'AJobDuplicated': 'job-duplicated', 'AJobIncomp
          'ABreak': 'break-not-a-distinct-defined-break-of-the-shift',
          'AJobMixedOrder': 'pickup-after-delivery-replacement-or-service-of-the-same-job',
          'ARequiredBreak': 'break-not-a-distinct-required-break-of-the-shift',
-         'AClusterMember': 'clustered-activity-of-a-job-that-cannot-be-clustered'}
+         'AClusterMember': 'clustered-activity-of-a-job-that-cannot-be-clustered',
+         'ARecharge': 'recharge-stop-not-a-distinct-defined-station-of-the-shift'}
 
 
 def _violations(c, s, items):
@@ -134,7 +136,13 @@ def _violations(c, s, items):
         if name == 'ATourEmpty':
             tour = s['tours'][arg]
             vt = e2e.vehicle_type_of(c, tour)
-            if vt is not None and (vt.get('limits') or {}).get('maxDuration') is not None:
+            if job_less_on_recharge_shift(c, tour):
+                # finding C02-F5: RechargeableMultiTrip::try_recover makes every recharge station of a shift a required, locked job
+                # when nothing can be inserted; the stations are put into an EMPTY tour, an optional break is accepted behind them,
+                # the stations are removed again as trivial markers, and the tour that holds only the break (or only stations) is
+                # not an empty route for remove_empty_routes
+                cls = 'job-less-tour-of-break-or-recharge-stops-on-shift-with-recharge-stations'
+            elif vt is not None and (vt.get('limits') or {}).get('maxDuration') is not None:
                 cls = 'empty-tour-max-duration-vehicle'
             what = 'tour #%d (%s shift %s) serves no job; its statistic is %s' % (
                 arg, tour.get('vehicleId'), tour.get('shiftIndex'), json.dumps(tour.get('statistic')))
@@ -143,10 +151,30 @@ def _violations(c, s, items):
             cls = 'required-break-reported-twice-as-transit-stop-and-stop-activity'
             what = 'ARequiredBreak %s: the same break interval %s is reported by a stop without location and by an activity of another stop' % (
                 arg, e2e.rb_reported_twice(s['tours'][arg]))
+        elif name == 'AReload' and e2e.tour_required_breaks(c, s['tours'][arg]) and e2e.rb_unreported_time(c, s['tours'][arg]) > 0:
+            # finding C02-F7 (root cause of C01-F6 / C03-F5): a required break that the writer counts in times.break without writing
+            # it stretches the reload stop: the reload activity is longer than any reload defined for the shift
+            cls = 'reload-stop-stretched-by-required-break-counted-in-statistic-but-not-reported'
+            what = 'AReload %s: the tour statistic counts %d s of break that no reported break activity covers' % (arg, e2e.rb_unreported_time(c, s['tours'][arg]))
+        elif name == 'AReload' and e2e.tour_required_breaks(c, s['tours'][arg]) and e2e.rb_two_on_one_span(c, s['tours'][arg]):
+            # finding C02-F7, second class (root cause of C01-F9 / C03-F6): two reserved times inside one stop, only the first is
+            # applied: the activities behind it (here the reload) are reported one behind the other with unexplained gaps
+            cls = 'reload-stop-with-two-required-breaks-inside-one-leg-or-stop'
+            what = 'AReload %s: two required breaks fall into the span %s of the tour' % (arg, e2e.rb_two_on_one_span(c, s['tours'][arg]),)
         elif name.startswith('AJob') or name == 'AForeignJob':
             what = '%s: job %s' % (name, ids.job_name(arg))
         out.append({'class': cls, 'what': what})
     return out
+
+
+def job_less_on_recharge_shift(c, tour):
+    """structure of finding C02-F5: the tour serves no job, consists of break / recharge stops besides departure and arrival, and its
+    vehicle shift defines recharge stations"""
+    vt = e2e.vehicle_type_of(c, tour)
+    if vt is None or tour.get('shiftIndex', 0) >= len(vt['shifts']) or not e2e.shift_recharges(vt['shifts'][tour.get('shiftIndex', 0)]):
+        return False
+    kinds = [a.get('type') for st in tour['stops'] for a in st['activities'] if a.get('type') not in ('departure', 'arrival')]
+    return bool(kinds) and all(k in ('break', 'recharge') for k in kinds)
 
 
 def oracle(c, impl):
